@@ -259,7 +259,7 @@ def copy_vs_constructor(out, rng):
     bad = ['x', None, 1.5, 2.0, 1j, [1], (1,), -1, 128, 256, 16384, 1 << 40, True, b'ab', '', [300], (-1,)]
     good = [0, 1, 5, 100, 'C', 'abc', [1, 2], (3,), 2.5, 24]
     n = dist_ok = dist_err = 0
-    for m in _sample_messages(rng, 1 if out.tier == 'quick' else 4):
+    for m in _sample_messages(rng, 1 if out.tier == 'quick' else 12):
         for fm in (m, freeze_message(m)):
             names = [k for k in vars(m) if k != 'type'] + ['bogus', 'note']
             sets = [{a: v} for a in names for v in bad + good]
@@ -286,7 +286,7 @@ def hash_routes(out, rng):
     import mido
     from mido.frozen import freeze_message, thaw_message
     n = 0
-    for m in _sample_messages(rng, 2 if out.tier == 'quick' else 10):
+    for m in _sample_messages(rng, 2 if out.tier == 'quick' else 40):
         routes = [('copy', lambda: m.copy()), ('thaw-freeze', lambda: thaw_message(freeze_message(m)))]
         if type(m) is mido.Message:
             routes += [('from_bytes', lambda: mido.Message.from_bytes(m.bytes(), time=m.time)),
@@ -318,7 +318,7 @@ def hash_routes(out, rng):
 
 def run(out):
     rng = random.Random(out.seed)
-    n = 2000 if out.tier == 'quick' else 20000
+    n = 2000 if out.tier == 'quick' else 200000
     cases = [[3, -1], [2, -1], [0, 0, 0, 4, 0, 1, 1, 60, 2, 64, 11, 0, 2, 0, 2, 1, 3, 1, 4, 0, 1, 61, 4, 1, 1, 62]]
     cases += [random_history(rng) for _ in range(n)]
     for tag, rec in core.pmap(job, chunk_jobs(cases, 'heap', COMP_HEAP)):
